@@ -67,9 +67,13 @@ pub fn kind_at(v: &[(SymInt, SymInt, RuleKind, Vec<Arc<str>>)], m: SymInt) -> Sy
 fn from_ranges(n: usize) {
     let rs = fresh_ranges("r", n);
     let m = vrt::fresh_int("m", 0, 1439);
-    let sched = Schedule::from_ranges(to_ext(&rs), RuleKind::Open, &UniqueSortedVec::new());
+    let comments: UniqueSortedVec<Arc<str>> = vec![Arc::from("k1"), Arc::from("k2")].into();
+    let sched = Schedule::from_ranges(to_ext(&rs), RuleKind::Open, &comments);
     let v = view(&sched);
     vrt::note(format!("from_ranges: {} ranges -> {}", n, v.len()));
+    // C17: every range of the schedule carries exactly the comments it was built with
+    let want: Vec<Arc<str>> = comments.iter().cloned().collect();
+    vrt::check("comments: every range built by from_ranges carries exactly the given comments", SymBool::Const(v.iter().all(|x| x.3 == want)));
     vrt::check("from_ranges: disjoint, increasing, non-empty", invariant(&v));
     vrt::check("from_ranges: covers exactly the union of its inputs", covers(&view_ranges(&v), m).iff(covers(&rs, m)));
     vrt::check("from_ranges: kind kept", SymBool::Const(v.iter().all(|x| x.2 == RuleKind::Open)));
@@ -80,7 +84,9 @@ fn from_ranges(n: usize) {
 /// Well-formed operand built through the public API: `n` ranges that from_ranges keeps as they are.
 fn operand(prefix: &str, n: usize, kind: RuleKind) -> (Schedule, Vec<(SymInt, SymInt)>) {
     let rs = fresh_ranges(prefix, n);
-    let sched = Schedule::from_ranges(to_ext(&rs), kind, &UniqueSortedVec::new());
+    // each operand carries two comments of its own (prefix-tagged)
+    let comments: UniqueSortedVec<Arc<str>> = vec![Arc::from(format!("{prefix}-x")), Arc::from(format!("{prefix}-y"))].into();
+    let sched = Schedule::from_ranges(to_ext(&rs), kind, &comments);
     // the operand's meaning is what it actually holds (from_ranges itself is checked above)
     let held = view_ranges(&view(&sched));
     (sched, held)
@@ -100,6 +106,18 @@ fn addition(na: usize, ka: RuleKind, nb: usize, kb: RuleKind, third: Option<(usi
     let v = view(&sum);
     vrt::note(format!("addition -> {} ranges", v.len()));
     vrt::check("addition: disjoint, increasing, non-empty", invariant(&v));
+    // C17: comments stay sorted, duplicate-free and come from the operands; a range lying inside the
+    // last operand that no range of another operand touches carries exactly that operand's comments
+    for (s, e, _k, cs) in &v {
+        vrt::check("comments: sorted and free of duplicates after addition", SymBool::Const(cs.windows(2).all(|w| w[0] < w[1])));
+        vrt::check("comments: taken from the operands", SymBool::Const(cs.iter().all(|c| c.ends_with("-x") || c.ends_with("-y"))));
+        if third.is_none() {
+            let inside_b = SymBool::any(rb.iter().map(|(lo, hi)| lo.le(*s).and(e.le(*hi))));
+            let touches_a = SymBool::any(ra.iter().map(|(lo, hi)| lo.lt(*hi).and(lo.le(*e)).and(s.le(*hi))));
+            let only_b = cs.len() == 2 && cs.iter().all(|c| c.starts_with("b-"));
+            vrt::check("comments: a period of the last added schedule that no other period touches carries exactly its comments", inside_b.and(touches_a.not()).implies(SymBool::Const(only_b)));
+        }
+    }
     vrt::check("addition: every minute shows the most recently added schedule covering it", kind_at(&v, m).eq(want));
     // day iteration of the sum
     check_iteration(sum, &v, m);
